@@ -19,8 +19,12 @@ Import ListNotations.
 Local Open Scope string_scope.
 
 (* ---------- the scope dict ---------- *)
-(* A scope entry is JSON-like data or the Guard object itself. *)
-Inductive sval := SV (v : value) | SGuard.
+(* A scope entry is JSON-like data, the very Guard object this middleware was built
+   with (identity: `x is self.guard`), or some other opaque object (another Guard, a
+   stub, anything that is not JSON data), told apart by a number.  The incoming scope
+   is an input: it may already carry any of the three under any key, "rbacx_guard"
+   included (a stacked deployment: an outer instance of the middleware ran first). *)
+Inductive sval := SV (v : value) | SGuard | SObj (id : nat).
 Definition scope := list (string * sval).      (* a Python dict, insertion order kept, keys unique *)
 
 Fixpoint scope_get (k : string) (sc : scope) : option sval :=     (* scope.get(k) *)
@@ -36,12 +40,13 @@ Fixpoint scope_set (k : string) (x : sval) (sc : scope) : scope :=
   | (k', y) :: r => if String.eqb k k' then (k', x) :: r else (k', y) :: scope_set k x r
   end.
 
-(* scope.get("type") == "http": a missing key gives None, None and the Guard object
-   are not equal to a str *)
+(* scope.get("type") == "http": a missing key gives None; None, the Guard object and
+   any other opaque object are not equal to a str *)
 Definition sval_eq_str (o : option sval) (s : string) : bool :=
   match o with
   | Some (SV v) => py_eq v (VStr s)
   | Some SGuard => false
+  | Some (SObj _) => false
   | None => false
   end.
 
